@@ -407,6 +407,34 @@ pub fn minimise(spec: &RunSpec, want: &Violation) -> (RunSpec, Violation, u32) {
                 }
             }
         }
+        // 4. arguments: header rows towards small values, sheet indices towards 0
+        for i in 0..best.ops.len() {
+            if budget == 0 {
+                break;
+            }
+            let cands: Vec<crate::wb::Op> = match &best.ops[i] {
+                crate::wb::Op::SetHeader(Some(n)) if *n > 1 => {
+                    let mut c = vec![crate::wb::Op::SetHeader(Some(0)), crate::wb::Op::SetHeader(Some(1))];
+                    if *n > 4 {
+                        c.push(crate::wb::Op::SetHeader(Some(n / 2)));
+                    }
+                    c
+                }
+                crate::wb::Op::Range(crate::wb::SheetArg::Idx(k)) if *k > 0 => vec![crate::wb::Op::Range(crate::wb::SheetArg::Idx(0))],
+                crate::wb::Op::RangeRef(crate::wb::SheetArg::Idx(k)) if *k > 0 => vec![crate::wb::Op::RangeRef(crate::wb::SheetArg::Idx(0))],
+                _ => vec![],
+            };
+            for cand in cands {
+                let mut c = best.clone();
+                c.ops[i] = cand;
+                if let Some(v) = still_fails(&c, want, &mut budget) {
+                    best = c;
+                    bestv = v;
+                    progress = true;
+                    break;
+                }
+            }
+        }
         if !progress || budget == 0 {
             break;
         }
@@ -951,7 +979,7 @@ pub fn selftest_rewrite() -> i32 {
         let ops = vec![Op::Sweep];
         let run = |img: Vec<u8>| {
             let img = std::sync::Arc::new(img);
-            let ex = execute(img.clone(), Entry::own(fx.format), Delivery::perfect(), &ops, Limits::for_input(img.len(), 60_000_000_000), &ExecOpts { capture: false, stop_on_panic: true, probes: &[] });
+            let ex = execute(img.clone(), Entry::own(fx.format), Delivery::perfect(), &ops, Limits::for_input(img.len(), 60_000_000_000), &ExecOpts { capture: false, stop_on_panic: true, probes: &[], record_kinds: false });
             let mut s = crate::prng::Sig::new();
             ex.open.sig(&mut s);
             for r in &ex.ops {
